@@ -71,6 +71,8 @@ type VC struct {
 	specDepth   int
 	safety      bool
 	dynSig      *types.Signature
+	modBody     map[*ssa.BasicBlock]bool
+	modLocals   map[*ssa.Alloc]map[string]bool
 }
 
 type loopInfo struct {
@@ -81,6 +83,7 @@ type loopInfo struct {
 	headVals map[*ssa.Phi]Term
 	variant  Term
 	hasVar   bool
+	modLocals map[*ssa.Alloc]map[string]bool
 }
 
 type deferred struct {
@@ -121,6 +124,7 @@ type Frame struct {
 	lets      map[string]Bound
 	callStack []*ssa.Function
 	curBlock  *ssa.BasicBlock
+	exits     []*exitInfo
 }
 
 type Bound struct {
@@ -354,6 +358,7 @@ func (vc *VC) encodeBody(fr *Frame, st *State) *exitInfo {
 	if len(exits) == 0 {
 		return nil
 	}
+	fr.exits = exits
 	return vc.mergeExits(fr, exits)
 }
 
@@ -556,6 +561,22 @@ func (vc *VC) enterLoop(fr *Frame, li *loopInfo, merged *State, phiEntry map[*ss
 			}
 		}
 	}
+	if !all {
+		for a, names := range li.modLocals {
+			p, ok := fr.vals[a]
+			if !ok {
+				continue
+			}
+			for name := range names {
+				if mods[name] {
+					continue
+				}
+				_, cell := vc.memKindByName(name)
+				m := vc.get(st, name, memSort(cell))
+				st.mem[name] = vc.q.Define(name+"$lrow", Store(m, Root(p), vc.q.Fresh(name+"$lr", ArraySort(SPath, cell))))
+			}
+		}
+	}
 	na := vc.q.Fresh("alloc$loop", SInt)
 	vc.q.Assert(Ge(na, merged.alloc))
 	st.alloc = na
@@ -631,6 +652,10 @@ func (fr *Frame) allLocalRoots() []Term {
 func (vc *VC) loopMods(fr *Frame, li *loopInfo) (map[string]bool, bool) {
 	mods := map[string]bool{}
 	all := false
+	vc.modBody = li.body
+	vc.modLocals = map[*ssa.Alloc]map[string]bool{}
+	li.modLocals = vc.modLocals
+	defer func() { vc.modBody = nil; vc.modLocals = nil }()
 	for b := range li.body {
 		for _, ins := range b.Instrs {
 			if vc.instrMods(fr, ins, mods, 0) {
@@ -647,6 +672,25 @@ func (vc *VC) loopMods(fr *Frame, li *loopInfo) (map[string]bool, bool) {
 func (vc *VC) instrMods(fr *Frame, ins ssa.Instruction, mods map[string]bool, depth int) bool {
 	switch t := ins.(type) {
 	case *ssa.Store:
+		if a := localAllocOf(t.Addr); a != nil {
+			if vc.modBody == nil || depth > 0 || vc.modBody[a.Block()] {
+				// writes into a non-escaping local that is (re)allocated inside the region: its rows
+				// are fresh on every execution and dead afterwards
+				break
+			}
+			// a local declared outside the region: only that object's rows change
+			if vc.modLocals != nil {
+				names := map[string]bool{}
+				vc.memNamesOf(t.Val.Type(), names)
+				if vc.modLocals[a] == nil {
+					vc.modLocals[a] = map[string]bool{}
+				}
+				for n := range names {
+					vc.modLocals[a][n] = true
+				}
+				break
+			}
+		}
 		vc.memNamesOf(t.Val.Type(), mods)
 	case *ssa.MapUpdate:
 		mt := t.Map.Type().Underlying().(*types.Map)
@@ -655,6 +699,9 @@ func (vc *VC) instrMods(fr *Frame, ins ssa.Instruction, mods map[string]bool, de
 		mods[v] = true
 		mods["ML"] = true
 	case *ssa.Alloc:
+		if !t.Heap && (vc.modBody == nil || depth > 0 || vc.modBody[t.Block()]) {
+			break
+		}
 		vc.memNamesOf(t.Type().Underlying().(*types.Pointer).Elem(), mods)
 	case *ssa.MakeSlice:
 		vc.memNamesOf(t.Type().Underlying().(*types.Slice).Elem(), mods)
@@ -682,6 +729,28 @@ func (vc *VC) instrMods(fr *Frame, ins ssa.Instruction, mods map[string]bool, de
 	case *ssa.MakeInterface, *ssa.MakeClosure:
 	}
 	return false
+}
+
+// isLocalAllocAddr reports whether addr is (a field/element of) a non-escaping local variable.
+func localAllocOf(addr ssa.Value) *ssa.Alloc {
+	for {
+		switch a := addr.(type) {
+		case *ssa.FieldAddr:
+			addr = a.X
+		case *ssa.IndexAddr:
+			if _, ok := a.X.Type().Underlying().(*types.Pointer); !ok {
+				return nil // element of a slice: the backing array is not the local itself
+			}
+			addr = a.X
+		case *ssa.Alloc:
+			if a.Heap {
+				return nil
+			}
+			return a
+		default:
+			return nil
+		}
+	}
 }
 
 func iterName(fr *Frame, v ssa.Value) string {
